@@ -172,6 +172,30 @@ def _one(d, ctx, kinds, **gen_kw):
     require(err <= tol_for(case), 'posterior-is-bayes-rule',
             f'max |predict - Bayes| = {err:.3e}', kind=case.kind)
 
+    # a buffer the caller refills between two calls: the posterior belongs to
+    # the content handed over, not to the array object (frames in reverse
+    # order -> posterior columns in reverse order)
+    # (only for weights that do not depend on the frame index)
+    w_frames = np.shape(mm.weight_broadcast(model, case))
+    frame_free = len(w_frames) == 0 or w_frames[-1] == 1
+    # and away from the numerical guards, where rounding differences between
+    # vector positions are amplified by 1/floor
+    if case.N >= 2 and frame_free and np.all(np.isfinite(post)) and \
+            not mm.ill_conditioned(model, case):
+        buf = np.array(case.y)
+        ebuf = None if case.emb is None else np.array(case.emb)
+        p_a = ctx.lib(mm.predict, model, case, y=buf, emb=ebuf, with_mask=False,
+                      allow=mm.EXPLICIT, clause='predict-raises')
+        buf[...] = buf[..., ::-1, :].copy()
+        if ebuf is not None:
+            ebuf[...] = ebuf[..., ::-1, :].copy()
+        p_b = ctx.lib(mm.predict, model, case, y=buf, emb=ebuf, with_mask=False,
+                      allow=mm.EXPLICIT, clause='predict-raises')
+        if np.all(np.isfinite(p_a)) and np.all(np.isfinite(p_b)):
+            err = float(np.max(np.abs(p_b - p_a[..., ::-1])))
+            require(err <= tol_for(case), 'posterior-of-a-refilled-buffer-is-not-that-of-its-content',
+                    f'max deviation {err:.3e}', kind=case.kind)
+
     if case.kind == 'cacgmm':
         # the documented second return value: the quadratic forms z^H B^-1 z
         aff_q, q = ctx.lib(model.predict, case.y, return_quadratic_form=True,
